@@ -187,3 +187,86 @@ class AsyncHarness:
         jax.effects_barrier()
         res["log"] = project_log(probes.LOG.snapshot())
         return res
+
+
+def run_history(h: "AsyncHarness", history, wd=None, on_boundary=None, eps0=0, fixed_gs_eps=None):
+    """Execute a call history on the harness' AsyncGraph.
+
+    history: list of calls: "reset", "step", "step!" (override with own result), "run", "stop".
+    Returns list of episode results (one per explicit "stop" that ended a started episode) in the shape of
+    AsyncHarness.episode(), each with 'calls' (the calls of that episode).
+    wd(fn, what) wraps each API call (watchdog in free-running mode); on_boundary() is called after each stop
+    (the gate uses it to quiesce)."""
+    g = h.graph
+    wd = wd or (lambda f, w: f())
+    out = []
+    cur = None  # current episode bookkeeping
+    gs = None
+    ss = None
+    eps = eps0
+    ncalls = 0
+
+    def begin(style):
+        nonlocal cur, eps
+        if cur is not None:
+            eps += 1  # the abandoned episode consumed an episode number (start() was called for it)
+        probes.LOG.clear()
+        gs_eps = eps if fixed_gs_eps is None else fixed_gs_eps
+        h.gs0 = h.gs0.replace(eps=onp.int32(gs_eps))
+        cur = dict(style=style, nsteps=0, override=False, sss=[], calls=[], eps=eps, gs_eps=gs_eps, noexec_ticks=[])
+
+    for call in history:
+        ncalls += 1
+        if call == "reset":
+            begin("step")
+            cur["calls"].append(call)
+            gs, ss = wd(lambda: g.reset(h.gs0), f"reset@{ncalls}")
+            cur["sss"].append(project_ss(ss))
+        elif call in ("step", "step!"):
+            assert cur is not None and cur["style"] == "step", "protocol: step only after reset"
+            cur["calls"].append(call)
+            if call == "step!":
+                sup = h.sup
+                was = sup.do_log
+                sup.do_log = False
+                try:
+                    new_ss, o = sup.step(ss)
+                finally:
+                    sup.do_log = was
+                cur["noexec_ticks"].append(cur["nsteps"])
+                _gs, _ss = gs, ss
+                gs, ss = wd(lambda: g.step(_gs, new_ss, o), f"step!@{ncalls}")
+            else:
+                _gs = gs
+                gs, ss = wd(lambda: g.step(_gs), f"step@{ncalls}")
+            cur["nsteps"] += 1
+            cur["sss"].append(project_ss(ss))
+        elif call == "run":
+            if cur is None or cur["style"] != "run":
+                begin("run")
+                gs = h.gs0
+            cur["calls"].append(call)
+            _gs = gs
+            gs = wd(lambda: g.run(_gs), f"run@{ncalls}")
+            cur["nsteps"] += 1
+        elif call == "stop":
+            wd(lambda: g.stop(), f"stop@{ncalls}")
+            if on_boundary:
+                on_boundary()
+            if cur is not None:
+                cur["calls"].append(call)
+                jax.effects_barrier()
+                try:
+                    rec = g.get_record()
+                    cur["record"] = project_record(rec, h.cfg)
+                except TypeError as e:  # connection that consumed nothing (outside the properties)
+                    cur["record_error"] = str(e)
+                # steps of an abandoned earlier episode may still finish while the next start() stops them; they carry
+                # the earlier episode number in their step state, so they are told apart by it
+                cur["log"] = [e for e in project_log(probes.LOG.snapshot()) if e["eps"] == cur["gs_eps"]]
+                out.append(cur)
+                eps += 1
+                cur = None
+        else:
+            raise ValueError(call)
+    return out, cur
